@@ -180,6 +180,32 @@ fn wrapper_probes(r: &mut Sm) -> Vec<Value> {
     out.push(json!({"ctor":"CompoundStateSpace","n_subspaces":2,"weights":[1.0],"expect":"ValueError"}));
     out.push(json!({"ctor":"CompoundStateSpace","n_subspaces":1,"weights":[1.0,2.0],"expect":"ValueError"}));
     out.push(json!({"ctor":"CompoundStateSpace","n_subspaces":2,"weights":[1.0,0.5],"expect":"ok"}));
+    // distances through the compound and SE3 wrappers (components: SO2 x SO2 / R^3 x SO3)
+    for _ in 0..40 {
+        let w = [r.range(0.0, 3.0), r.range(0.0, 3.0)];
+        let (a, b) = ([r.range(-3.0, 3.0), r.range(-3.0, 3.0)], [r.range(-3.0, 3.0), r.range(-3.0, 3.0)]);
+        let spec = Spec { wrap: Wrap::Compound, comps: vec![
+            crate::spec::Comp { kind: CK::So2 { bounds: None }, weight: w[0], frac: None },
+            crate::spec::Comp { kind: CK::So2 { bounds: None }, weight: w[1], frac: None }] };
+        if let Ok(sp) = crate::spec::build_compound(&spec) {
+            let mk = |v: &[f64; 2]| crate::spec::compound_state(&spec, &[SO2State::new(v[0]).value, SO2State::new(v[1]).value]);
+            let d = sp.distance(&mk(&a), &mk(&b));
+            out.push(json!({"ctor":"CompoundStateSpace","n_subspaces":2,"weights":[fj(w[0]),fj(w[1])],"expect":"ok",
+                "probes":[{"op":"distance","a":[fj(a[0]),fj(a[1])],"b":[fj(b[0]),fj(b[1])],"expect":fj(d)}]}));
+        }
+        let wt = r.range(0.0, 2.0);
+        let b3 = vec![(-5.0, 5.0), (-5.0, 5.0), (-5.0, 5.0)];
+        if let Ok(sp) = SE3StateSpace::new(wt, Some(b3.clone())) {
+            let (qa, qb) = (r.quat(), r.quat());
+            let (pa, pb) = ([r.range(-5.0, 5.0), r.range(-5.0, 5.0), r.range(-5.0, 5.0)], [r.range(-5.0, 5.0), r.range(-5.0, 5.0), r.range(-5.0, 5.0)]);
+            let sa = oxmpl::base::state::SE3State::new(pa[0], pa[1], pa[2], SO3State::new(qa[0], qa[1], qa[2], qa[3]));
+            let sb = oxmpl::base::state::SE3State::new(pb[0], pb[1], pb[2], SO3State::new(qb[0], qb[1], qb[2], qb[3]));
+            let fa: Vec<f64> = pa.iter().chain(qa.iter()).cloned().collect();
+            let fb: Vec<f64> = pb.iter().chain(qb.iter()).cloned().collect();
+            out.push(json!({"ctor":"SE3StateSpace","weight":fj(wt),"bounds":b3.iter().map(|p| json!([fj(p.0),fj(p.1)])).collect::<Vec<_>>(),"expect":"ok",
+                "probes":[{"op":"distance","a":crate::util::fjs(&fa),"b":crate::util::fjs(&fb),"expect":fj(sp.distance(&sa, &sb))}]}));
+        }
+    }
     for v in angle_values() {
         out.push(json!({"ctor":"SO2State","value":fj(v),"expect_value":fj(SO2State::new(v).value)}));
         out.push(json!({"ctor":"SE2State","value":fj(v),"expect_value":fj(SE2State::new(0.5, -0.5, v).get_yaw())}));
